@@ -88,6 +88,7 @@ def c01_table(rng, sid, nscen):
         mode = rng.choice(["overlap", "onlyonce"])
         pver = rng.choice([4, 5])
         steps = [connect(1, "s5", 5), connect(2, "s3", rng.choice([3, 4])), connect(3, "p", pver)]
+        alias = {}
         n = 0
         rounds = rng.choice([1, 2])
         # a bystander whose session ends in the middle (its filters are often level-prefixes of, or equal to, the others'):
@@ -114,7 +115,16 @@ def c01_table(rng, sid, nscen):
                 # RETAIN only in the last round: C01 scenarios never subscribe after a retained publish (that is C07)
                 retain = rng.random() < 0.25 and rnd == rounds - 1
                 if who < 0.55:
-                    steps.append(pub(3, topic, qos, tag, retain))
+                    kw = {}
+                    if pver == 5 and rng.random() < 0.5:
+                        # the publisher uses topic aliases: bind / re-bind an alias (topic + alias) or send the alias alone
+                        al = rng.choice([1, 2, 10])
+                        if alias.get(al) == topic and rng.random() < 0.7:
+                            kw = {"alias": al, "notopic": True}
+                        else:
+                            alias[al] = topic
+                            kw = {"alias": al}
+                    steps.append(pub(3, topic, qos, tag, retain, **kw))
                 elif who < 0.8:
                     steps.append(pub(1, topic, qos, tag, retain))
                 else:
@@ -589,7 +599,7 @@ def c05_sessions(rng, sid, nscen):
             if end == "disconnect":
                 steps.append({"op": "disconnect", "k": 1})
             elif end == "newexp" and E > 0:
-                ne = rng.choice([1, 3, 1000])
+                ne = rng.choice([0, 1, 3, 1000])     # 0: the DISCONNECT ends the session
                 steps.append({"op": "disconnect", "k": 1, "expiry": ne})
                 E = ne
             elif end == "terminate":
